@@ -251,10 +251,18 @@ def pattern_obligations():
     src = open(os.path.join(REPO, 'cai_causal_graph', 'utils.py'), encoding='utf-8').read()
     found = [n.value for n in ast.walk(ast.parse(src)) if isinstance(n, ast.Constant) and isinstance(n.value, str)]
     out = []
-    for nm, pat in (('re.match pattern', PATTERN), ('findall lag pattern', FINDALL_LAG),
-                    ('findall future pattern', FINDALL_FUTURE)):
-        ok = pat in found
-        out.append((f'C12 name grammar: {nm} in utils.py is the modelled one', ok, '' if ok else f'expected {pat!r}'))
+    ok = PATTERN in found
+    out.append(('C12 name grammar: the anchored name pattern in utils.py is the modelled one', ok,
+                '' if ok else f'expected {PATTERN!r}'))
+    # the marker COUNT (more than one marker -> ValueError) is modelled as the number of non-overlapping occurrences of
+    # `lag(n=<digits>)` plus those of `future(n=<digits>)`.  Accepted spellings of exactly that count (the two kinds of
+    # marker cannot overlap, so one alternation counts the same): the two findall patterns, with a capturing or a
+    # non-capturing digit group, or a single alternation
+    two = [(r'lag\(n=(\d+)\)', r'future\(n=(\d+)\)'), (r'lag\(n=\d+\)', r'future\(n=\d+\)')]
+    one = [r'(?:lag|future)\(n=\d+\)', r'(?:lag|future)\(n=(\d+)\)', r'(lag|future)\(n=(\d+)\)', r'(?:future|lag)\(n=\d+\)']
+    ok = any(a in found and b in found for a, b in two) or any(p in found for p in one)
+    out.append(('C12 name grammar: the marker-counting pattern(s) in utils.py count the modelled markers', ok,
+                '' if ok else f'expected {FINDALL_LAG!r} and {FINDALL_FUTURE!r} (or their alternation)'))
     return out
 
 
